@@ -56,6 +56,23 @@ type machine struct {
 	nontrivial bool
 }
 
+// bounded runs a call of the API that must not block and reports it when it does (a lock that is never released, ...).
+func (m *machine) bounded(t *rapid.T, what string, fn func()) {
+	done := make(chan any, 1)
+	go func() {
+		defer func() { done <- recover() }()
+		fn()
+	}()
+	select {
+	case p := <-done:
+		if p != nil {
+			panic(p)
+		}
+	case <-time.After(lib.Live):
+		t.Fatalf("violation: %s did not return within %v (ops %v)", what, lib.Live, m.ops)
+	}
+}
+
 func (m *machine) log(f string, a ...any) { m.ops = append(m.ops, fmt.Sprintf(f, a...)) }
 
 func (m *machine) addHandler(t *rapid.T) {
@@ -99,11 +116,13 @@ func (m *machine) addHandler(t *rapid.T) {
 		}
 		return nil, nil
 	}
-	if h.pub >= 0 {
-		h.handle = m.router.AddHandler(h.name, "in-"+h.name, h.sub, "out", m.pubs[h.pub], fn)
-	} else {
-		h.handle = m.router.AddNoPublisherHandler(h.name, "in-"+h.name, h.sub, func(msg *message.Message) error { _, err := fn(msg); return err })
-	}
+	m.bounded(t, "AddHandler("+h.name+")", func() {
+		if h.pub >= 0 {
+			h.handle = m.router.AddHandler(h.name, "in-"+h.name, h.sub, "out", m.pubs[h.pub], fn)
+		} else {
+			h.handle = m.router.AddNoPublisherHandler(h.name, "in-"+h.name, h.sub, func(msg *message.Message) error { _, err := fn(msg); return err })
+		}
+	})
 	m.hs = append(m.hs, h)
 	m.log("AddHandler(%s, publisher %d, beforeRun=%v)", h.name, h.pub, h.addedBeforeRun)
 }
@@ -140,7 +159,10 @@ func (m *machine) runHandlers(t *rapid.T) {
 	}
 	mode := rapid.SampledFrom([]string{"once", "twice", "concurrent"}).Draw(t, "runHandlersMode")
 	// "ctx will be propagated to all subscribers": handlers started later get the Run context as well
-	do := func() error { return m.router.RunHandlers(m.runCtx) }
+	do := func() (err error) {
+		m.bounded(t, "RunHandlers", func() { err = m.router.RunHandlers(m.runCtx) })
+		return err
+	}
 	switch mode {
 	case "once":
 		if err := do(); err != nil {
@@ -159,7 +181,7 @@ func (m *machine) runHandlers(t *rapid.T) {
 		errs := make([]error, 3)
 		for i := range errs {
 			wg.Add(1)
-			go func(i int) { defer wg.Done(); errs[i] = do() }(i)
+			go func(i int) { defer wg.Done(); errs[i] = m.router.RunHandlers(m.runCtx) }(i)
 		}
 		done := make(chan struct{})
 		go func() { wg.Wait(); close(done) }()
